@@ -645,15 +645,15 @@ def scale_counter_wrap(rng, kind, gaps):
 def scale_batch(rng, kinds, tier):
     """executions of the scale batch for the given kinds (a few per kind in the quick tier)"""
     out = []
-    reps = 1 if tier == "quick" else 4
+    reps = 1 if tier == "quick" else 2
     for kind in kinds:
         for _ in range(reps):
             if kind in CACHE_KINDS:
-                out.append(scale_big_capacity(rng, kind, rng.choice([130, 140] if tier == "quick" else [130, 200, 260])))
-            out.append(scale_hot_keys(rng, kind, 1400 if tier == "quick" else 3000))
+                out.append(scale_big_capacity(rng, kind, rng.choice([130, 140] if tier == "quick" else [130, 170, 200])))
+            out.append(scale_hot_keys(rng, kind, 1400 if tier == "quick" else 2500))
             if kind in CACHE_KINDS:
                 out.append(scale_counter_wrap(rng, kind, [255, 256, 257, 512] if tier == "quick" else
-                                              [127, 128, 255, 256, 257, 511, 512, 1024, 4096]))
+                                              [127, 128, 255, 256, 257, 511, 512, 1024]))
             if kind in TTL_KINDS:
                 big = 270 if kind in ("utmap", "utset") else 140      # beyond any batching threshold up to 256
                 for both in (True, False):      # both waves expired / only the first one
